@@ -3,7 +3,7 @@ import os, sys, json
 sys.path.insert(0, os.path.join(os.path.dirname(os.path.abspath(__file__)), '..', 'lib'))
 import vcommon as V
 
-PROPS = ['props/C14.v', 'regress/C14.v', 'props/C14_src.v']
+PROPS = ['props/C14.v', 'regress/C14.v', 'props/C14_src.v', 'props/State.v']
 GEN_OBLIGATIONS = ['C14_strategy_is_concurrent', 'C14_source_wiring']
 ASSUMPTIONS = [
     "kernel pipes are modelled as FIFO buffers of capacity cap (theorems: every cap > 0); a write transfers any "
